@@ -96,6 +96,7 @@ type Tr struct {
 	paramEnv  map[string]Val
 	debugVals map[string][]ssa.Value // source var name -> values (from DebugRef)
 	retCount  int
+	cellSaved []string
 	preOnly   bool // applyContract: check the preconditions only (go statements)
 	locals    []*ssa.Alloc
 	genCount  int
@@ -586,8 +587,7 @@ func (t *Tr) val(v ssa.Value) Term {
 	case *ssa.Const:
 		return t.constant(v)
 	case *ssa.Global:
-		name := "glob_" + mangle(shortKey(v.String()))
-		t.vc.declFun(name, fmt.Sprintf("(declare-const %s Int)\n(assert (< %s 0))", name, name))
+		name := t.vc.globalAddr(mangle(shortKey(v.String())))
 		x := Term{name, SInt_}
 		t.vals[v] = x
 		return x
